@@ -402,4 +402,60 @@ theorem eMaybeRef_some (o : Option R) : ∃ ch : Chunk R, eMaybeRef o = some ch 
   | none => exact ⟨([false], []), rfl, rfl, by simp⟩
   | some r => exact ⟨([true], [r]), by simp [eMaybeRef, eBool, eRef, Enc.cat], rfl, by simp⟩
 
+/-! ### header sizes of `Message X` proper -/
+
+/-- any address has at most 2 + 9 + 511 bits -/
+theorem nbits_eAddr_le (a : Addr) : Enc.nbits (eAddr a : Enc R) ≤ 522 := by
+  cases a with
+  | none => exact Nat.le_trans (nbits_eBits _) (by simp)
+  | std anycast wc hash =>
+    exact Nat.le_trans (nbits_eAddr_nonext (Addr.std anycast wc hash) (by intro l v h; cases h)) (by omega)
+  | ext len val =>
+    simp only [eAddr]
+    have h512 : (2 : Int) ^ 9 = 512 := by decide
+    by_cases hl : (len : Int) < 2 ^ 9
+    · have hl' : len < 512 := by rw [h512] at hl; omega
+      refine Nat.le_trans (nbits_cat_le (x := 2) (y := 9 + len) (nbits_eBits _) (nbits_cat_le (nbits_eUint 9 _) ?_)) (by omega)
+      split
+      · split
+        · simp [eNil, Enc.nbits]
+        · simp [Enc.nbits]
+      · exact nbits_eUint _ _
+    · have hn : ¬ (0 ≤ (len : Int) ∧ (len : Int) < 2 ^ 9) := fun h => hl h.2
+      have : (eUint 9 (len : Int) : Enc R) = none := by unfold eUint; simp only [hn, if_false]
+      rw [this]; simp [Enc.cat, Enc.nbits, eBits]
+
+/-- `addr_std` without anycast: 2 + 1 + 8 + 256 bits -/
+theorem nbits_eAddr_std_none (wc : Int) (hash : Bytes) : Enc.nbits (eAddr (Addr.std none wc hash) : Enc R) ≤ 267 := by
+  simp only [eAddr]
+  refine Nat.le_trans (nbits_cat_le (x := 2) (y := 265) (nbits_eBits _) (nbits_cat_le (x := 1) (y := 264) (nbits_eBool _)
+    (nbits_cat_le (x := 8) (y := 256) (nbits_eInt _ _) ?_))) (by omega)
+  split
+  · rename_i hh; simp [eBits, Enc.nbits, bytesToBits_length, hh.1]
+  · simp [Enc.nbits]
+
+theorem isInt_nonext {a : Addr} (h : Addr.isInt a = true) : ∀ l v, a ≠ Addr.ext l v := by
+  intro l v he; subst he; simp [Addr.isInt] at h
+
+theorem nbits_encCurrency (c : Currency R) : Enc.nbits (encCurrency c) ≤ 125 :=
+  nbits_cat_le (x := 124) (y := 1) (nbits_eGrams _) (nbits_eMaybeRef _)
+
+/-- a header of `Message X` proper (address classes as block.tlb names them; no anycast in an internal header) has at
+    most 1007 bits -/
+theorem nbits_encInfo_conforms (i : Info R) (hc : i.Conforms) (hna : Info.IntNoAnycast i) : Enc.nbits (encInfo i) ≤ 1007 := by
+  cases i with
+  | int a b c src dest value ihr fwd lt at_ =>
+    obtain ⟨⟨w1, h1, rfl⟩, ⟨w2, h2, rfl⟩⟩ := hna
+    exact Nat.le_trans (nbits_cat_le (x := 1) (y := 1006) (nbits_eBool _) <| nbits_cat_le (x := 1) (y := 1005) (nbits_eBool _) <|
+      nbits_cat_le (x := 1) (y := 1004) (nbits_eBool _) <| nbits_cat_le (x := 1) (y := 1003) (nbits_eBool _) <|
+      nbits_cat_le (x := 267) (y := 736) (nbits_eAddr_std_none _ _) <| nbits_cat_le (x := 267) (y := 469) (nbits_eAddr_std_none _ _) <|
+      nbits_cat_le (x := 125) (y := 344) (nbits_encCurrency _) <| nbits_cat_le (x := 124) (y := 220) (nbits_eGrams _) <|
+      nbits_cat_le (x := 124) (y := 96) (nbits_eGrams _) <| nbits_cat_le (x := 64) (y := 32) (nbits_eUint _ _) (nbits_eUint _ _)) (by omega)
+  | extIn src dest fee =>
+    exact Nat.le_trans (nbits_cat_le (x := 2) (y := 948) (nbits_eBits _) <| nbits_cat_le (x := 522) (y := 426) (nbits_eAddr_le _) <|
+      nbits_cat_le (x := 302) (y := 124) (nbits_eAddr_nonext _ (isInt_nonext hc.2)) (nbits_eGrams _)) (by omega)
+  | extOut src dest lt at_ =>
+    exact Nat.le_trans (nbits_cat_le (x := 2) (y := 920) (nbits_eBits _) <| nbits_cat_le (x := 302) (y := 618) (nbits_eAddr_nonext _ (isInt_nonext hc.1)) <|
+      nbits_cat_le (x := 522) (y := 96) (nbits_eAddr_le _) <| nbits_cat_le (x := 64) (y := 32) (nbits_eUint _ _) (nbits_eUint _ _)) (by omega)
+
 end TonVerif.Proofs.Message
